@@ -16,7 +16,7 @@ META = {
                    'the bond factor, full step on the last site, mirrored sweep; two-site: evolve the MERGED PAIR, SVD OF THE EVOLVED PAIR, backward-evolve the '
                    'carried core. Drivers tdvp1site / tdvp2site / tdvp are run end to end: sweep schedule, every effective operator == P^H H P (frame of the '
                    'current iterate), list = initial state (by identity) + one state per step, normalisation, inputs unchanged. krylov: Lanczos coefficients '
-                   'alpha_j == <w_j, v_j>, beta_j == ||w_j|| placed tridiagonally, argument of the small exponential == -i h T, result == sum_j (exp(-ihT) e_1)_j v_j. trajectory: the list returned for two steps starts with the list returned for one step (an entry stored for step 1 is not touched by step 2), with and without normalisation; normalised states == un-normalised state / its norm.',
+                   'alpha_j == <w_j, v_j>, beta_j == ||w_j|| placed tridiagonally, argument of the small exponential == -i h T, result == sum_j (exp(-ihT) e_1)_j v_j. trajectory: the list returned for two steps starts with the list returned for one step (an entry stored for step 1 is not touched by step 2), with and without normalisation; normalised states == un-normalised state / its norm. NOT solver-decided, sampled by the validation run on a random complex Hermitian operator (scenario exactness): tdvp1site / tdvp2site at maximal ranks == exp(-i t H) x0 at every stored time, Krylov with a full Krylov space (also with a rank cap equal to the maximal TT rank) exact, norm and energy conserved by the one-site scheme at rank 1, inputs unchanged.',
     'bounds': {'quick': 'micro-steps: ranks (r1, r2[, r3]) in {1,2}, mode size 2, every position class (first/inner/last) and direction; drivers: chain lengths 2-3, '
                         'ranks {1,2}, complex Hermitian operators H = C + C^H with C of rank 1, 1-2 steps; krylov: dimension 1-2 (dimension 2 on chain length 2 only; dimension 3, and dimension 2 on chain length 3, end in an undecided look-up of the small exponential and are not claimed)',
                'thorough': 'mode size 3 micro-steps, chain length 4 drivers'},
